@@ -276,6 +276,8 @@ def _edit_histories(chk, rng):
         [('insert-rotator', 2, 90), ('set', 5, 45), ('auto-off',), ('read-rotation',), ('set', 5, 60)],
         # a plug-in's own pre-processor on the pass class (a unit that hands the profile on unchanged): the entry rotation still happens, once
         [('plugin-preprocessor',), ('insert-rotator', 2, 90)], [('plugin-preprocessor',), ('set', 4, 30)],
+        # an edit that keeps the number of units: a transport replaced by a rotator, and a rotator replaced by a transport
+        [('replace-with-rotator', 1, 90)], [('insert-rotator', 2, 90), ('replace-with-transport', 2)], [('replace-with-rotator', 3, 90), ('replace-with-transport', 3)],
         # units wrapped into an inner sequence (a "line") and the whole flattened again: the arrangement is the same as before
         [('insert-rotator', 2, 90), ('nest-flatten', 1, 4)], [('nest-flatten', 0, 2), ('insert-rotator', 2, 90)], [('insert-rotator', 4, 90), ('nest-flatten', 3, 6)],
     ]
@@ -325,6 +327,10 @@ def _edit_histories(chk, rng):
                     seq.subunits.insert(op[1], u)
                 elif op[0] == 'del-slice':
                     del seq.subunits[op[1]:op[2]]
+                elif op[0] == 'replace-with-rotator':
+                    seq.subunits[op[1]] = Rotator(label=f"explicit{len(done)}", rotation=op[2])
+                elif op[0] == 'replace-with-transport':
+                    seq.subunits[op[1]] = Transport(label=f"swapped{len(done)}", duration=1)
                 elif op[0] == 'plugin-preprocessor':
                     from pyroll.core import Unit as _Unit
                     from pyroll.core.profile import Profile as _BP
